@@ -478,5 +478,23 @@ Module CliRun.
     && on (rec_asm (k_twostep_asm k)) (defaults_of u 3)
     && on (rec_asm (k_api_asm k)) (defaults_of u 3)
     && on (k_combined k) (fun to => match snd to with Rec (Some a) _ => defaults_of u 3 a | _ => true end).
-  Definition spec_on_recorded (k : case) : bool := same_calls k && spec_defaults k.
+  (* every option the user gives reaches the callee (flipjump_quickstart cannot be given -f / --lzma_preset) *)
+  Definition honoured (cli : bool) (u : uopts) (a : asm_call) : bool :=
+    on (uo_width u) (Z.eqb (ac_width a)) && on (uo_version u) (Z.eqb (ac_version a))
+    && (if cli then on (uo_flags u) (Z.eqb (ac_flags a)) && on (uo_preset u) (Z.eqb (ac_preset a)) else true)
+    && Bool.eqb (ac_werror a) (uo_werror u) && on (uo_max_depth u) (Z.eqb (ac_max_depth a))
+    && Bool.eqb (ac_print_time a) (negb (uo_silent u)).
+  Definition spec_honoured (k : case) : bool :=
+    let u := k_u k in
+    on (rec_asm (k_onestep k)) (honoured true u) && on (rec_asm (k_twostep_asm k)) (honoured true u)
+    && on (rec_asm (k_api_asm k)) (honoured false u)
+    && on (k_combined k) (fun to => match snd to with
+                                    | Rec (Some a) _ => honoured false (mkuo (uo_files u) (uo_width u) (Some (ac_version a))
+                                                          (uo_flags u) (uo_no_stl u) (uo_outfile u) (uo_debug u) (uo_werror u)
+                                                          (uo_preset u) (uo_silent u) (uo_max_depth u) (uo_stats u) (uo_trace u)
+                                                          (uo_profile u) (uo_debug_ops u) (uo_flat_max_words u) (uo_io u)
+                                                          (uo_breakpoints u) (uo_breakpoints_contains u)) a
+                                    | _ => true
+                                    end).
+  Definition spec_on_recorded (k : case) : bool := same_calls k && spec_defaults k && spec_honoured k.
 End CliRun.
